@@ -31,6 +31,10 @@ def apply_body_rules(body, unit, c, f):
             raise ExtractError('unsupported construct in %s: %s' % (f.name, why))
     # R9 panics
     repl = 'diverge()' if c.variant == 'returns-only-if' else 'vpanic()'
+    if c.variant.startswith('panics-iff:'):
+        # both directions: the panic site must be reachable only when the stated precondition is violated,
+        # and the function returns only when it holds
+        repl = 'vpanic_iff(Ghost(%s))' % c.variant[len('panics-iff:'):]
     for rx in PANIC_RES:
         body = rx.sub(repl, body)
     if 'panic' in body and 'vpanic' not in body.replace('vpanic', ''):
